@@ -46,10 +46,9 @@ type SeenJ struct {
 
 var strategies = []proxyv1alpha1.LimitStrategy{"", proxyv1alpha1.LocalLimit, proxyv1alpha1.GlobalAllocateLimit, proxyv1alpha1.GlobalCountLimit}
 
-func hname(n int) string { return fmt.Sprintf("s%d", n) }
 
-func (s SchemaJ) real() proxyv1alpha1.FlowControlSchema {
-	out := proxyv1alpha1.FlowControlSchema{Name: hname(s.Name), Strategy: strategies[s.Strategy%len(strategies)]}
+func (s SchemaJ) real(names []string) proxyv1alpha1.FlowControlSchema {
+	out := proxyv1alpha1.FlowControlSchema{Name: nameOf(names, s.Name), Strategy: strategies[s.Strategy%len(strategies)]}
 	if s.Exempt {
 		out.Exempt = &proxyv1alpha1.ExemptFlowControlSchema{}
 	}
@@ -71,7 +70,8 @@ func (s SchemaJ) real() proxyv1alpha1.FlowControlSchema {
 func (s SchemaJ) isTB() bool { return !s.Exempt && s.MI == nil && s.GMI == nil && (len(s.TB) == 2 || len(s.GTB) == 2) }
 
 // look describes the limiter that serves a request for the name right now (what the dispatcher would call).
-func look(ul flowcontrols.UpstreamLimiter, name int) (SeenJ, flowcontrol.FlowControl, string) {
+func look(ul flowcontrols.UpstreamLimiter, names []string, name int) (SeenJ, flowcontrol.FlowControl, string) {
+	hname := func(n int) string { return nameOf(names, n) }
 	fc, ok := ul.Load(hname(name))
 	if !ok || fc == nil {
 		return SeenJ{Kind: "none"}, nil, "no limiter at all (Load finds nothing: requests fall back to the system-default exempt limiter)"
@@ -117,6 +117,8 @@ func checkHist(c *rig.Ctx, cs Case) *failure { return checkHistMode(c, cs, false
 // wall clock and the admissions are judged per segment (wall.go). Never fatal.
 func checkHistMode(c *rig.Ctx, cs Case, wall bool) *failure {
 	clk := &scriptClock{arrive: make(chan *pause, 4)}
+	hname := func(n int) string { return fmt.Sprintf("%q", nameOf(cs.Names, n)) }
+	rawName := func(n int) string { return nameOf(cs.Names, n) }
 	needWall := false
 	var outs []histStepOut
 	var fail *failure
@@ -138,7 +140,7 @@ func checkHistMode(c *rig.Ctx, cs Case, wall bool) *failure {
 				spec := proxyv1alpha1.FlowControl{}
 				present := map[int]SchemaJ{}
 				for _, s := range *op.Sync {
-					spec.Schemas = append(spec.Schemas, s.real())
+					spec.Schemas = append(spec.Schemas, s.real(cs.Names))
 					present[s.Name] = s
 				}
 				before := mono()
@@ -153,7 +155,7 @@ func checkHistMode(c *rig.Ctx, cs Case, wall bool) *failure {
 					}
 				}
 				for _, s := range *op.Sync {
-					seen, inner, str := look(ul, s.Name)
+					seen, inner, str := look(ul, cs.Names, s.Name)
 					so.Seen = append(so.Seen, seen)
 					// the clause, on what the real code shows
 					var v struct{ Ok, Legal bool }
@@ -206,7 +208,7 @@ func checkHistMode(c *rig.Ctx, cs Case, wall bool) *failure {
 				if !wall {
 					clk.set(absToTime(parseBig(op.T)))
 				}
-				fc, ok := ul.Load(hname(*op.Acq))
+				fc, ok := ul.Load(rawName(*op.Acq))
 				if !ok || fc == nil {
 					outs = append(outs, histStepOut{})
 					if e, configured := open[*op.Acq]; configured && fail == nil {
@@ -345,7 +347,7 @@ func genSchema(c *rig.Ctx, name int, kind int) SchemaJ {
 
 func genHist(c *rig.Ctx) Case {
 	r := c.Rng
-	cs := Case{Kind: "hist"}
+	cs := Case{Kind: "hist", Names: pickNames(c.Rng, 3)}
 	t := new(big.Int).Set(nowAbs)
 	kinds := map[int]int{}   // current kind per name, -1 absent
 	cur := map[int]SchemaJ{} // current schema per name
